@@ -1,7 +1,9 @@
 (* Property C17 - wallet-facing indexes match the main chain: histories, tx heights, height index.
-   Statements only; proofs in Proofs/Paging.v, Proofs/Restart.v. *)
-From Virel Require Import Lib.Config Lib.U64 Lib.AMap Model.Ledger Model.Node Model.Paging
-  Proofs.NodeBasics Proofs.Paging Proofs.Restart.
+   Statements only; proofs in Proofs/Paging.v, Proofs/Restart.v, Proofs/ChainInv.v, Proofs/ChainRun.v,
+   Proofs/ChainExamples.v. *)
+From Virel Require Import Lib.Config Lib.U64 Lib.AMap Model.Ledger Model.Node Model.Paging Spec.Chain
+  Proofs.NodeBasics Proofs.ForkChoice Proofs.Paging Proofs.Restart Proofs.ChainInv Proofs.ChainRun Proofs.ChainHeights
+  Proofs.ChainExamples Gen.Params.
 Open Scope N_scope.
 
 (* "every history page": for every history length n below 2^63 the pages served by get_tx_list partition the ids 1..n:
@@ -28,6 +30,46 @@ Theorem C17_rejected_unchanged : forall cfg genesis_addr team_key n b now n' c a
 Proof. exact deliver_rejected_unchanged. Qed.
 Print Assumptions C17_rejected_unchanged.
 
-(* NOT PROVED (stated): after any history the numbered incoming/outgoing histories list exactly the main-chain events,
-   tx heights are those of the containing main-chain block, and the height index links genesis to the tip.  These are
+(* "the height index links genesis to the tip, nothing above the tip": after EVERY sequence of fewer than 2^64 - 1
+   deliveries (any blocks, any order, any clock readings) the index has entries exactly for the heights 0..top_h: it maps
+   top_h to the tip and 0 to genesis, every height up to top_h to a stored block of that height whose parent is the entry
+   one below, and has no entry above top_h (top_h is the height of the tip block: C10_top_height_is_tip_height). *)
+Theorem C17_height_index_is_main_chain : forall cfg genesis_addr team_key g n0 ops,
+  node0 cfg genesis_addr g = Ok n0 -> b_height g = 0 -> b_cd g = b_diff g ->
+  N.of_nat (length ops) < two64 - 1 ->
+  let n := run cfg genesis_addr team_key n0 ops in
+  get_topo n (top_h n) = Some (top n) /\
+  get_topo n 0 = Some (b_hash g) /\
+  (forall ht, top_h n < ht -> get_topo n ht = None) /\
+  (forall ht, ht <= top_h n ->
+     exists y yb, get_topo n ht = Some y /\ get_block n y = Some yb /\ b_height yb = ht /\
+                  (0 < ht -> get_topo n (ht - 1) = Some (prev_hash yb))).
+Proof. exact height_index_is_main_chain. Qed.
+Print Assumptions C17_height_index_is_main_chain.
+
+(* hence: following prev_hash from the tip for top_h steps meets exactly index[top_h], ..., index[1], index[0]
+   (walk, heights_down: Spec/Chain.v) *)
+Theorem C17_walk_from_tip_is_index : forall cfg genesis_addr team_key g n0 ops,
+  node0 cfg genesis_addr g = Ok n0 -> b_height g = 0 -> b_cd g = b_diff g ->
+  N.of_nat (length ops) < two64 - 1 ->
+  let n := run cfg genesis_addr team_key n0 ops in
+  map (get_topo n) (heights_down (N.to_nat (top_h n))) = map Some (walk (blocks n) (N.to_nat (top_h n)) (top n)).
+Proof. exact walk_from_top_is_index. Qed.
+Print Assumptions C17_walk_from_tip_is_index.
+
+(* non-vacuity: a concrete history satisfying the premises, with a reorganisation to a heavier but shorter chain *)
+Theorem C17_index_premises_satisfiable :
+  exists n0, node0 cfg_verifnet 7 w_genesis = Ok n0 /\ b_height w_genesis = 0 /\ b_cd w_genesis = b_diff w_genesis /\
+    N.of_nat (length sr_ops) < two64 - 1 /\
+    w_outcomes n0 sr_ops = [Accepted; Accepted; Accepted; Accepted; Accepted] /\
+    (let n := run cfg_verifnet 7 0 n0 (firstn 4 sr_ops) in
+     topo n = [(0, 1); (1, 2); (2, 3); (3, 8)] /\ top n = 8 /\ top_h n = 3) /\
+    (let n := run cfg_verifnet 7 0 n0 sr_ops in
+     topo n = [(0, 1); (1, 4); (2, 6)] /\ top n = 6 /\ top_h n = 2 /\ walk (blocks n) 2 (top n) = [6; 4; 1] /\
+     tips n = [(8, mktip 8 3 11)]).
+Proof. exact shorter_heavier_reorg_example. Qed.
+Print Assumptions C17_index_premises_satisfiable.
+
+(* NOT PROVED (stated): after any history the numbered incoming/outgoing histories list exactly the main-chain events and
+   tx heights are those of the containing main-chain block (the height index part IS proved above).  These are
    decided on the implementation's dumps against an independent replay of the chain content (Check/C17.v). *)
